@@ -547,6 +547,7 @@ class Env(gpp.UGenParameter, gpp.NodeParameter):
         res = utl.list_binop(
             operator.mul, self.times, 1 / self.total_duration())
         self.times = utl.list_binop(operator.mul, res, value)
+        self.__envgen_format = self.__interpolation_format = None
 
     def total_duration(self):
         '''Duration of the longest envelop (multichannel case).
@@ -591,6 +592,7 @@ class Env(gpp.UGenParameter, gpp.NodeParameter):
         min = utl.list_min(obj.levels)
         max = utl.list_max(obj.levels)
         obj.levels = utl.list_narop(bi.linlin, obj.levels, min, max, lo, hi)
+        obj.__envgen_format = obj.__interpolation_format = None
         return obj
 
     def exprange(self, lo=0.01, hi=1.0):
@@ -609,6 +611,7 @@ class Env(gpp.UGenParameter, gpp.NodeParameter):
         min = utl.list_min(obj.levels)
         max = utl.list_max(obj.levels)
         obj.levels = utl.list_narop(bi.linexp, obj.levels, min, max, lo, hi)
+        obj.__envgen_format = obj.__interpolation_format = None
         return obj
 
     def curverange(self, lo=0.0, hi=1.0, curve=-4):
@@ -630,6 +633,7 @@ class Env(gpp.UGenParameter, gpp.NodeParameter):
         max = utl.list_max(obj.levels)
         obj.levels = utl.list_narop(
             bi.lincurve, obj.levels, min, max, lo, hi, curve)
+        obj.__envgen_format = obj.__interpolation_format = None
         return obj
 
     # TODO
